@@ -65,7 +65,7 @@ int hx_in_child(void (*fn)(void *arg, FILE *o), void *arg, char *outbuf, size_t 
     return 2;
 }
 
-static const hx_op *const tables[] = { ops_c14, ops_c16, ops_c15, ops_c03, ops_c04, ops_c09, NULL };
+static const hx_op *const tables[] = { ops_c14, ops_c16, ops_c15, ops_c03, ops_c04, ops_c09, ops_c01, NULL };
 
 int main(void) {
     char *line = NULL; size_t cap = 0; ssize_t n;
@@ -85,6 +85,10 @@ int main(void) {
                    sodium_runtime_has_avx(), sodium_runtime_has_avx2(), sodium_runtime_has_avx512f(), sodium_runtime_has_pclmul(),
                    sodium_runtime_has_aesni(), sodium_runtime_has_rdrand(), crypto_aead_aes256gcm_is_available());
             continue;
+        }
+        if (strncmp(argv[0], "aead.", 5) == 0) {
+            int r = hx_aead(argv[0], argc - 1, argv + 1, stdout);
+            if (r <= 0) { if (r < 0) fputs("bad-args", stdout); fputc('\n', stdout); continue; }
         }
         for (t = 0; tables[t] && !handled; t++) {
             const hx_op *op;
